@@ -1,7 +1,12 @@
 #!/bin/bash
-# try_seed.sh <patch.diff> <PROP> [PROP...] : apply to /repo, run checks, undo
+# try_seed.sh <patch.diff> <PROP> [PROP...] : apply to /repo (3-way fallback), run checks, undo
 p=$1; shift
-cd /repo && git apply $p || { echo "patch does not apply to /repo"; exit 2; }
+cd /repo && [ -z "$(git status --porcelain)" ] || { echo "/repo not clean"; exit 2; }
+cd /repo && (git apply $p 2>/dev/null || git apply -3 $p 2>/dev/null) || { echo "patch does not apply to /repo"; git reset -q --hard HEAD; exit 2; }
+if git diff --name-only --diff-filter=U | grep -q .; then echo "patch conflicts with the current tree"; git reset -q --hard HEAD; exit 2; fi
+git reset -q
+export GOFLAGS=-mod=mod GOPROXY=off GOSUMDB=off GOTOOLCHAIN=local
+go build ./... 2>&1 | head -3
 cd /verif
-for prop in "$@"; do ./check $prop 2>&1 | grep -v "^  failed\|^UNDECIDED" | head -8; echo "exit=${PIPESTATUS[0]}"; done
-git -C /repo checkout -- . 
+for prop in "$@"; do ./check $prop 2>&1 | grep -v "^  failed\|^UNDECIDED\|^KNOWN" | head -8 | cut -c1-230; echo "exit=${PIPESTATUS[0]}"; done
+git -C /repo reset -q --hard HEAD
